@@ -920,6 +920,8 @@ type vfC13Sys struct {
 	keepValid     bool            // ... and a connection has existed ever since
 	chunkModes    map[string]int
 	notified, disc map[string]bool
+	baseline       map[string]vfC13PeerView // what the peerstore held under the other peers before any message
+	prevTokens     map[string]int           // address tokens of R before the current step
 }
 
 func vfC13New(cfg vfC13Cfg, seed int64) (*vfC13Sys, error) {
@@ -963,6 +965,10 @@ func vfC13New(cfg vfC13Cfg, seed int64) (*vfC13Sys, error) {
 		return nil, errors.New("Start did not register the notifiee and the push handler")
 	}
 	s.ps.calls = nil
+	s.baseline = map[string]vfC13PeerView{}
+	for p, n := range map[peer.ID]string{vfC13G.idF: "F", vfC13G.idL: "L", "": "zero"} {
+		s.baseline[n] = s.view(p)
+	}
 	return s, nil
 }
 
@@ -1377,21 +1383,64 @@ func (v vfC13PeerView) empty() bool {
 }
 
 type vfC13AddrSt struct {
-	TTL  string   `json:"ttl"`
-	Mode string   `json:"mode"`
-	Set  []string `json:"set"`
-	N    int      `json:"n"`
-	Must []string `json:"must"`
+	TTL  string
+	Mode string
+	Set  []string
+	N    int
+	Must []string
 }
+
+// model state, see St in spec/C13_MC.tla:
+// {R, F: [ttl, mode, set, n, must, protocols, key, metadata], c: {conn: [cs, ntf, ent, idf]}}
 type vfC13St struct {
-	A   map[string]vfC13AddrSt `json:"a"`
-	P   map[string][]string    `json:"p"`
-	K   map[string]string      `json:"k"`
-	M   map[string]string      `json:"m"`
-	Cs  map[string]string      `json:"cs"`
-	Ntf map[string]bool        `json:"ntf"`
-	Ent map[string]bool        `json:"ent"`
-	Idf map[string]string      `json:"idf"`
+	A   map[string]vfC13AddrSt
+	P   map[string][]string
+	K   map[string]string
+	M   map[string]string
+	Cs  map[string]string
+	Ntf map[string]bool
+	Ent map[string]bool
+	Idf map[string]string
+}
+
+func (st *vfC13St) UnmarshalJSON(b []byte) error {
+	var raw struct {
+		R, F []json.RawMessage
+		C    map[string][]json.RawMessage `json:"c"`
+	}
+	if err := json.Unmarshal(b, &raw); err != nil {
+		return err
+	}
+	*st = vfC13St{A: map[string]vfC13AddrSt{}, P: map[string][]string{}, K: map[string]string{}, M: map[string]string{},
+		Cs: map[string]string{}, Ntf: map[string]bool{}, Ent: map[string]bool{}, Idf: map[string]string{}}
+	for pn, l := range map[string][]json.RawMessage{"R": raw.R, "F": raw.F} {
+		if len(l) != 8 {
+			return fmt.Errorf("peer state of %d fields", len(l))
+		}
+		var a vfC13AddrSt
+		var pr []string
+		var k, m string
+		for i, dst := range []any{&a.TTL, &a.Mode, &a.Set, &a.N, &a.Must, &pr, &k, &m} {
+			if err := json.Unmarshal(l[i], dst); err != nil {
+				return err
+			}
+		}
+		st.A[pn], st.P[pn], st.K[pn], st.M[pn] = a, pr, k, m
+	}
+	for c, l := range raw.C {
+		if len(l) != 4 {
+			return fmt.Errorf("connection state of %d fields", len(l))
+		}
+		var cs, idf string
+		var ntf, ent bool
+		for i, dst := range []any{&cs, &ntf, &ent, &idf} {
+			if err := json.Unmarshal(l[i], dst); err != nil {
+				return err
+			}
+		}
+		st.Cs[c], st.Ntf[c], st.Ent[c], st.Idf[c] = cs, ntf, ent, idf
+	}
+	return nil
 }
 
 func (s *vfC13Sys) peerID(name string) peer.ID {
@@ -1423,8 +1472,15 @@ func (s *vfC13Sys) check(op vfh.Op, st *vfC13St) []vfC13MM {
 	}
 	// L1 only-remote
 	for n, v := range views {
-		if n != "R" && !v.empty() {
-			mm = append(mm, vfC13MM{"recorded-under-other-peer", fmt.Sprintf("after %s on a connection to R the peerstore holds data under %s", op.Name(), n), "nothing", v})
+		if n == "R" {
+			continue
+		}
+		base, ok := s.baseline[n]
+		if !ok {
+			base = vfC13PeerView{Addrs: map[string]int{}, Protos: map[string]int{}, Key: "none", Meta: "unset"}
+		}
+		if vfh.Canon(base) != vfh.Canon(v) {
+			mm = append(mm, vfC13MM{"recorded-under-other-peer", fmt.Sprintf("after %s on a connection to R the peerstore's data under %s changed", op.Name(), n), base, v})
 		}
 	}
 	r := views["R"]
@@ -1457,7 +1513,7 @@ func (s *vfC13Sys) check(op vfh.Op, st *vfC13St) []vfC13MM {
 			allowed[t] = true
 		}
 		for t := range r.Addrs {
-			if !allowed[t] {
+			if !allowed[t] && s.prevTokens[t] == 0 {
 				for _, rt := range vfC13RAddrs[s.lastMsg.Ra] {
 					if rt == t {
 						mm = append(mm, vfC13MM{"invalid-record-used", fmt.Sprintf("address %s of a signed record of class %q was recorded", t, s.lastMsg.Rec), nil, r.Addrs})
@@ -1466,6 +1522,7 @@ func (s *vfC13Sys) check(op vfh.Op, st *vfC13St) []vfC13MM {
 			}
 		}
 	}
+	s.prevTokens = r.Addrs
 	if st == nil {
 		return mm
 	}
@@ -1601,6 +1658,12 @@ func (s *vfC13Sys) finish(settle bool) []vfC13MM {
 	time.Sleep(peerstore.RecentlyConnectedAddrTTL + time.Minute)
 	synctest.Wait()
 	after := s.ps.Peerstore.Addrs(g.idR)
+	if s.openCount() == 0 && settle && len(before) > 0 {
+		s.chunkModes["probe_addresses_must_vanish"]++
+	}
+	if s.keepValid && s.openCount() > 0 && len(s.keepSet) > 0 {
+		s.chunkModes["probe_addresses_must_survive"]++
+	}
 	if s.openCount() == 0 && settle && len(after) > 0 {
 		mm = append(mm, vfC13MM{"connected-lifetime-without-connection", fmt.Sprintf("%d addresses of R outlive the recently-connected lifetime although every connection to R is closed and notified", len(after)), 0, len(after)})
 	}
